@@ -146,3 +146,20 @@ let () =
   register "refs" (function [lang; t; i] ->
       let r = if str lang = "cs" then Decls.refs_cs (table_of t) (iface_of i) else Decls.refs_cpp (table_of t) (iface_of i) in
       L (List.map (fun (f, d) -> L [S (fid_name f); vdecl d]) r) | _ -> failwith "arity")
+
+
+let () =
+  register "run_cs" (function [t; evs; bits] ->
+      (match CsSM.run_cs (table_of t) (strs evs) (gv_of bits) with
+       | None -> L [S "error"]
+       | Some r -> L [S "ok"; vsteps r])
+    | _ -> failwith "arity");
+  register "table_interp_quiet" (function [t; evs; bits] ->
+      vsteps (TableInterp.table_interp_quiet (table_of t) (strs evs) (gv_of bits)) | _ -> failwith "arity")
+
+
+let () =
+  register "sml_run" (function [t; evs; bits] ->
+      vsteps (SmlTT.sml_run (SmlTT.gen_sml true (table_of t)) (strs evs) (gv_of bits)) | _ -> failwith "arity");
+  register "camel_interp_quiet" (function [t; evs; bits] ->
+      vsteps (SmlTT.camel_steps (TableInterp.table_interp_quiet (table_of t) (strs evs) (gv_of bits))) | _ -> failwith "arity")
